@@ -114,6 +114,7 @@ func genTScript(rt *rapid.T, maxSteps int, hostile bool) *TScript {
 	sc.Cfg.PermTimeoutS = rapid.SampledFrom([]int{0, 0, 20, 45, 300}).Draw(rt, "perm")
 	nc := rapid.IntRange(1, 3).Draw(rt, "nclients")
 	sc.Cfg.Clients = rapid.Permutation([]int{0, 1, 2, 3}).Draw(rt, "pool")[:nc]
+	sc.Cfg.LibStatic = rapid.IntRange(0, 3).Draw(rt, "libStatic") == 0
 	sc.Cfg.Deny = []int{3}
 	if rapid.IntRange(0, 4).Draw(rt, "nodeny") == 0 {
 		sc.Cfg.Deny = nil
